@@ -712,6 +712,7 @@ func compileCallExpr(ctx *blockCtx, v *ast.CallExpr, inFlags int) {
 	fnt := pfn.Type
 	fn := &fnType{}
 	fn.load(fnt)
+	curFn := ctx.cb.Func()
 	for fn != nil {
 		if err = compileCallArgs(ctx, pfn, fn, v, ellipsis, flags); err == nil {
 			if rec := ctx.recorder(); rec != nil {
@@ -719,6 +720,9 @@ func compileCallExpr(ctx *blockCtx, v *ast.CallExpr, inFlags int) {
 			}
 			return
 		}
+		// an argument that failed against this candidate inside a lambda or function literal leaves
+		// that body open: close it, or everything compiled from here on lands in the abandoned closure
+		closeAbandonedFuncs(ctx.cb, curFn)
 		stk.SetLen(base)
 		fn = fn.next
 	}
@@ -726,6 +730,13 @@ func compileCallExpr(ctx *blockCtx, v *ast.CallExpr, inFlags int) {
 		return
 	}
 	panic(err)
+}
+
+func closeAbandonedFuncs(cb *gogen.CodeBuilder, curFn *gogen.Func) {
+	defer func() { recover() }() // a half-built block may not be closable; then nothing more can be done here
+	for n := 0; cb.Func() != curFn && n < 64; n++ {
+		cb.End()
+	}
 }
 
 func toBasicLit(fn *ast.Ident) *ast.BasicLit {
